@@ -529,11 +529,27 @@ fn run_in(world: &mut World, case: &Case) -> Outcome {
       }
     }
   }
+  let kind = if is_content {
+    if ce.is_some() {
+      "/passthrough"
+    } else if case.decompress && case.inscs.iter().any(|i| i.ce.as_deref() == Some(b"br") && i.br.as_ref() == Some(&r.body)) {
+      "/decompressed"
+    } else if r.transport.is_some() {
+      "/content+transport"
+    } else {
+      "/content"
+    }
+  } else if is_template {
+    if csp == vec![b"default-src 'self'".to_vec()] { "/page-default-csp" } else { "/page-media-csp" }
+  } else {
+    ""
+  };
   let cat = format!(
-    "route{}/{}{}{}",
+    "route{}/{}{}{}{}",
     case.route,
     r.status,
-    if is_content { if ce.is_some() { "/passthrough" } else if r.transport.is_some() { "/content+transport" } else { "/content" } } else { "" },
+    kind,
+    if case.origin.is_some() { "/origin" } else { "" },
     if case.hidden.is_empty() { "" } else { "/hidden-set" }
   );
   Outcome { obs: obs.done(), oracle: fail.map(Err).unwrap_or(Ok(())), cat }
